@@ -274,22 +274,24 @@ def insert_loop_specs(body, loops):
     return ''.join(out)
 
 
-ASSERT_RX = re.compile(
-    r'if\s*!\s*(?P<c>.*?)\s*\{\s*(?:\{\s*)?::core::panicking::panic(?:_fmt)?\s*\((?:[^;]*?)\)\s*;?\s*\}?\s*\}\s*;?',
-    re.S)
-
-
 def rewrite_asserts(body):
-    """N2: expansion of assert!(c) is `if !c { ::core::panicking::panic("...") }`"""
-    conds = []
-
-    def rep(m):
-        c = m.group('c').strip()
-        conds.append(c)
-        return 'assert(%s);' % c
-    # handle the common one-line forms only; anything else is left alone (and will be rejected)
-    body2 = ASSERT_RX.sub(rep, body)
-    return body2, conds
+    """N2: the panic call inside an expanded assert!/debug_assert!/panic! is replaced by `crate::pre::vpanic()`
+    (external_body, `requires false`): Verus must prove the panic unreachable under the contract's `requires`.
+    Only the call expression `::core::panicking::panic*(...)` is replaced; the guarding `if` stays as written."""
+    sc = Scanner(body)
+    out = []
+    pos = 0
+    n = 0
+    for m in re.finditer(r'::core::panicking::(panic_fmt|panic|panic_display|panic_explicit|unreachable_display)\s*\(', body):
+        if m.start() < pos:
+            continue
+        j = sc.skip_code_to(m.end(), '')   # index of the closing paren of the call
+        out.append(body[pos:m.start()])
+        out.append('crate::pre::vpanic()')
+        pos = j + 1
+        n += 1
+    out.append(body[pos:])
+    return ''.join(out), n
 
 
 class Selection:
@@ -359,7 +361,7 @@ def render_fn(fnitem, mode, contract, tparams=('T',), scalar='R', indent='    ')
         if body.count(anchor) != 1:
             raise LookupError('anchor-lost: insert anchor %r occurs %d times' % (anchor, body.count(anchor)))
         body = body.replace(anchor, ghost + '\n' + anchor)
-    if 'panicking::panic' in body:
+    if 'panicking::' in body:
         body, _ = rewrite_asserts(body)
     body = insert_loop_specs(body, c.loops)
     if c.prologue and not is_decl:
